@@ -81,6 +81,12 @@ func (d *Disk) Clone() *Disk {
 
 func (d *Disk) Len() int { return d.tree.Len() }
 
+// ApplyUnit applies a recorded unit (used to build the survivor of a crash).
+func (d *Disk) ApplyUnit(u Unit) {
+	d.applyOps(u.Ops)
+	d.Units++
+}
+
 // ContentHash digests all keys and values in order.
 func (d *Disk) ContentHash() [32]byte {
 	h := sha256.New()
